@@ -671,6 +671,25 @@ def system_case(ctx, replay):
     fin_templates = {k: {a: np.array(p, dtype=float) for a, p in t.items()} for k, t in molecules[0].templates.items()}
     same_dict = all(mol.templates is molecules[0].templates for mol in molecules)
     fin_volumes = {k: float(v) for k, v in topology.volumes.items()}
+    # process history: a SECOND GenerateTemplates run on the same topology object.  Every residue has its template
+    # by now (to the second run they are supplied ones: "used unchanged"), so nothing may be regenerated or moved.
+    try:
+        GenerateTemplates(topology=topology, max_opt=10, skip_filter=spec["skip_filter"]).run_system(topology)
+        attrs2 = [[molecules[m].nodes[n]["template"] for n in molecules[m].nodes] for m in range(len(molecules))]
+        templ2 = molecules[0].templates
+        changed = []
+        if attrs2 != attrs:
+            changed.append("template keys of the residues")
+        if sorted(templ2) != sorted(fin_templates) or any(
+                sorted(templ2[k]) != sorted(fin_templates[k]) or
+                any(not np.array_equal(np.array(templ2[k][a], dtype=float), fin_templates[k][a]) for a in fin_templates[k])
+                for k in fin_templates if k in templ2):
+            changed.append("templates")
+        if {k: float(v) for k, v in topology.volumes.items()} != fin_volumes:
+            changed.append("sizes")
+        second_run = "; ".join(changed) if changed else None
+    except Exception as exc:  # pylint: disable=broad-except
+        second_run = "raised %s: %s" % (type(exc).__name__, exc)
     generated = [k for k in fin_templates if k not in bf_templates]
     records = cap.records if cap.ok and len(cap.records) == len(generated) and \
         all(r["coords"] is not None for r in cap.records) else None
@@ -799,6 +818,9 @@ def system_case(ctx, replay):
         if not same_dict:
             ctx.oracle_fail("templates-not-shared", "molecules of one system ended with different templates objects", replay)
         # ---- the property on the real output
+        if second_run is not None:
+            ctx.oracle_fail("second-run-changes-templates", "a second GenerateTemplates(skip_filter=%s).run_system on the same "
+                            "topology changed what the first one had settled: %s" % (spec["skip_filter"], second_run), replay)
         idx = 1
         if not answers[idx]["sharing"]:
             ctx.oracle_fail("sharing", "isomorphic residues with different template keys, or residues with different atom "
@@ -1598,6 +1620,92 @@ STREAMS = dict(system=system_case, vs=vs_case, cog=cog_case, verdict=verdict_cas
                block=block_case, find=find_case, impropers=impropers_case, expand=expand_case, energy=energy_case)
 
 
+def e2e_case(ctx, replay):
+    """the command-level entry point: the real `gen_coords` (with `-skip_filter` and / or a build file, as drawn) on a
+    generated topology; the Topology object is captured and the statement is evaluated on what it holds at the end:
+    residues with different atom names point to different templates, each template holds one position per atom name
+    of its residues, every size is positive.  A run that does not finish (placement, residue-equivalence check of
+    -skip_filter, time limit) is counted, not judged."""
+    import tempfile
+    import pathlib
+    import polyply
+    from polyply.src.topology import Topology
+    rng = random.Random(replay["seed"])
+    spec = gen_topology_spec(rng, small=False)
+    captured = {}
+    orig = Topology.__dict__["from_gmx_topfile"]
+    orig_func = Topology.from_gmx_topfile.__func__
+
+    def wrapped(cls, *args, **kwargs):
+        captured["topology"] = orig_func(cls, *args, **kwargs)
+        return captured["topology"]
+    outcome = "ok"
+    with tempfile.TemporaryDirectory() as tmp:
+        top = pathlib.Path(tmp) / "sys.top"
+        top.write_text(top_text(spec))
+        # decoys in the process working directory must not matter
+        build = []
+        if spec["build"]:
+            bld = pathlib.Path(tmp) / "opt.bld"
+            bld.write_text("\n".join(build_text(spec)) + "\n")
+            build = [bld]
+        Topology.from_gmx_topfile = classmethod(wrapped)
+        np.random.seed(replay["seed"] % (2 ** 31))
+        random.seed(replay["seed"])
+        try:
+            with common.time_limit(90):
+                polyply.gen_coords(toppath=top, outpath=pathlib.Path(tmp) / "out.gro", name="t", box=np.array([14., 14., 14.]),
+                                   skip_filter=spec["skip_filter"], build=build)
+        except common.CaseTimeout:
+            outcome = "timeout"
+        except Exception as exc:  # pylint: disable=broad-except
+            outcome = "raises-" + type(exc).__name__
+        finally:
+            setattr(Topology, "from_gmx_topfile", orig)
+            from vermouth.file_writer import DeferredFileWriter
+            DeferredFileWriter().close()
+    topo = captured.get("topology")
+
+    def judge(_answers):
+        if outcome != "ok" or topo is None:
+            ctx.case(None, stream="e2e", e2e_outcome=outcome)
+            return
+        by_key, problems = {}, []
+        for mol in topo.molecules:
+            templates = getattr(mol, "templates", {})
+            for node in mol.nodes:
+                key = mol.nodes[node].get("template")
+                graph = mol.nodes[node]["graph"]
+                names = tuple(sorted(graph.nodes[a]["atomname"] for a in graph.nodes))
+                by_key.setdefault(key, set()).add(names)
+                if key not in templates or key not in topo.volumes:
+                    problems.append(("residue-without-template", "residue %s has template key %s, which templates / sizes lack"
+                                     % (mol.nodes[node]["resname"], key)))
+                else:
+                    if sorted(templates[key]) != sorted(set(names)):
+                        problems.append(("template-names", "template %s used by residue %s holds positions for %s, the residue's "
+                                         "atoms are %s" % (str(key)[:8], mol.nodes[node]["resname"], sorted(templates[key]),
+                                                           sorted(names))))
+                    if not float(topo.volumes[key]) > 0:
+                        problems.append(("size-not-positive", "size under %s is %r" % (str(key)[:8], topo.volumes[key])))
+        for key, name_sets in by_key.items():
+            if len(name_sets) > 1:
+                problems.append(("sharing", "residues with different atom names %s share the template key %s"
+                                 % (sorted(name_sets), str(key)[:8])))
+        seen = set()
+        for shape, what in problems:
+            if shape not in seen:
+                seen.add(shape)
+                ctx.oracle_fail(shape, "gen_coords(skip_filter=%s%s): %s; topology:\n%s"
+                                % (spec["skip_filter"], ", build file" if spec["build"] else "", what, top_text(spec)[:1200]), replay)
+        ctx.case(("e2e", replay["seed"]), stream="e2e", e2e_outcome="ok", e2e_skip_filter=spec["skip_filter"],
+                 e2e_build_file=bool(spec["build"]), e2e_capped_end=any("cap_of" in k for k in spec["kinds"]))
+    return [], judge
+
+
+STREAMS["e2e"] = e2e_case
+
+
 def gen_replays(ctx):
     rng = ctx.rng
     out = []
@@ -1633,6 +1741,8 @@ def gen_replays(ctx):
         out.append(dict(stream="expand", seed=rng.randint(0, 10 ** 9)))
     for _ in range(ctx.budget(40, 1000)):
         out.append(dict(stream="energy", seed=rng.randint(0, 10 ** 9)))
+    for _ in range(ctx.budget(4, 30)):                # the command-level entry point (gen_coords)
+        out.append(dict(stream="e2e", seed=rng.randint(0, 10 ** 9)))
     probe = sorted(s for s in FINDING_SHAPES if enabled(s))
     for rep in out:
         rep["probe"] = probe       # a replay regenerates the same input whatever the environment says
